@@ -268,6 +268,10 @@ fn native_case(k: usize, hexmsg: &str) -> String {
         23 => two!(Vec<u64>, Vec<i16>),
         24 => one!(Option<Box<List>>),
         25 => one!(Vec<()>),
+        26 => one!([u8; 4]),
+        27 => one!([String; 2]),
+        28 => two!([u8; 2], Vec<u8>),
+        29 => two!([i32; 3], Option<[bool; 1]>),
         _ => "bad".to_string(),
     }
 }
